@@ -97,7 +97,8 @@ Proof. exact c03_sequence. Qed.
 Print Assumptions C03_sequence.
 
 (* hence in a simulation: a station's history is a sequence of gaps (no EV: recorded rate 0) and
-   sessions (each EV charges its own battery through the generated EV_charge every period);
+   sessions; every period runs the generated BaseEVSE_set_pilot (accepted pilot), whose effect on
+   the attached EV is the generated EV_charge on top of the battery's charge_call;
    recorded = the (pilot, actual rate) pairs that Simulator stores for that station.
    0 <= recorded rate <= recorded pilot at every period, for every such history. *)
 Theorem C03_sim_station : forall timeline : list segment,
